@@ -32,6 +32,12 @@ for root, _, files in os.walk(src):
             if sg:
                 comps[q] = sg
         ref["__comprehensions__"] = comps
+        cons = {}
+        for q, fn in alpha.functions_with_qualnames(tree):
+            cs = normalize.construct_signatures(fn)
+            if cs:
+                cons[q] = cs
+        ref["__constructs__"] = cons
         out[rel] = ref
 json.dump(out, open(os.path.join(ROOT, "spec", "local_names.json"), "w"), indent=0, sort_keys=True)
 print("reference of %d locals in %d modules written" % (n, len(out)))
